@@ -14,17 +14,23 @@ def strip_lt(ty):
 
 def arm_key(name):
     """macro-arm key: integer/float widths abstracted, lifetimes and module prefix of impl paths removed"""
-    k = strip_lt(name)
-    k = re.sub(r'^[a-z_:]+::<impl', '<impl', k)
+    k = _strip_modules(strip_lt(name))
     k = INT_RE.sub('{int}', k)
     k = FLOAT_RE.sub('{float}', k)
     return k
 
 
-def stable_key(name):
-    k = strip_lt(name)
+def _strip_modules(k):
+    """drop the module path in front of a free function, an impl block or a type: moving an item
+    between modules must not change its key"""
     k = re.sub(r'^[a-z_:]+::<impl', '<impl', k)
+    k = re.sub(r'^(?:[a-z_][a-z0-9_]*::)+(?=[A-Z])', '', k)
+    k = re.sub(r'^(?:[a-z_][a-z0-9_]*::)+(?=[a-z_][A-Za-z0-9_]*(?:::\{closure#\d+\})*$)', '', k)
     return k
+
+
+def stable_key(name):
+    return _strip_modules(strip_lt(name))
 
 
 def norm_ty(t):
